@@ -360,7 +360,7 @@ def classify (st : State) (sp : Store) (tn : Taints) (op : Op) (exp got : Resp) 
   -- put
   | .putObject .., .err .NoSuchBucket, _ => (5, "fs:put-into-missing-bucket")
   | .putObject b k .., _, .err .InternalError => (5, internalClass st sp op b k)
-  -- 4f3e079: a key whose side files cannot be named is refused before anything is written — still a key the store accepts
+  -- c3dcb24: a key whose side files cannot be named is refused before anything is written — still a key the store accepts
   | .putObject b k .., _, .err .KeyTooLongError =>
     if sideTooLong b k false then (5, "fs:long-key-internal-error") else shapeOr generic
   | .putObject .., _, _ => shapeOr generic
